@@ -1113,6 +1113,10 @@ func (w *hpW) step(phase, k int) {
 }
 
 func heapWorld(r *R) {
+	if r.Focus == "C05" && r.Choose(12, "odd-types") == 11 {
+		heapOddTypes(r)
+		return
+	}
 	w := &hpW{r: r, c15: r.Focus == "C15"}
 	w.queue = r.Choose(2, "kind") == 1
 	w.pfx = "heap"
